@@ -109,14 +109,16 @@ class Run:
                 new.append(o)
         for k in reported_known:
             print("KNOWN-FINDING: property=%s %s" % (pid, k["what"]))
-        os.makedirs(os.path.join(VERIF, "out", "replay"), exist_ok=True)
+        rdir = os.environ.get("DSA_REPLAY_DIR") or os.path.join("out", "replay")
+        os.makedirs(os.path.join(VERIF, rdir), exist_ok=True)
         for n, o in enumerate(new, 1):
-            rp = os.path.join("out", "replay", "%s-%d.json" % (pid, n))
+            rp = os.path.join(rdir, "%s-%d.json" % (pid, n))
             with open(os.path.join(VERIF, rp), "w") as fh:
                 json.dump({"property": pid, "key": list(self.known_key(o)), "obligation": o}, fh, indent=1)
             print("VIOLATION property=%s replay=%s" % (pid, rp))
             print("  rule %s: %s" % (o["instance"], o.get("why", "")))
             print("  at %s in %s [%s]" % (o["site"], o["function"], o["sitekey"]))
+            print("  key %s" % json.dumps(list(self.known_key(o))))
             print("  %s" % o["detail"])
             if o.get("path"):
                 print("  path: %s" % o["path"])
